@@ -286,7 +286,7 @@ pub fn run(tier: &str, seed: u64) -> Report {
       statement(&mut report, &w, &r0, &cold, false, &format!("shape `{}`, cold cache", name), &replay);
       statement(&mut report, &w, &r0, &warm, true, &format!("shape `{}`, warm cache", name), &replay);
       if let Some(d) = same_outputs(&r0, &again) {
-        report.fail("oracle", "result-differs-between-runs", format!("shape `{}`: {}", name, d), replay.clone());
+        report.fail("oracle", "repeated-run-differs", format!("shape `{}`: {}", name, d), replay.clone());
       }
     }
     report.count_n("shape-corpus-histories", n);
